@@ -73,6 +73,10 @@ def param(draw, idx, allow_none):
         val = clamp(val)
     none = allow_none and rank == 0 and draw(st.integers(0, 11)) == 0
     segs = [draw(st.sampled_from(["box", "sim", "grid", "p"])) + str(idx)] if draw(st.booleans()) else []
+    if segs and draw(st.integers(0, 2)) == 0:
+        segs.append(draw(st.sampled_from(["size", "sub", "a"])))          # three and four levels deep
+        if draw(st.integers(0, 2)) == 0:
+            segs.append("in")
     segs.append(draw(st.sampled_from(["width", "n", "name", "flag", "v"])) + str(idx))
     unit = draw(st.sampled_from([None, "cm", "g/cm3", "s"])) if (t in INT_T or t in FLT_T) else None
     return {"path": segs, "type": t, "shape": shape, "val": None if none else val, "unit": unit, "tag": draw(st.booleans())}
@@ -83,6 +87,12 @@ def env_case(draw):
     n = draw(st.integers(3, 8))
     allow_none = draw(st.booleans())
     params = [draw(param(i, allow_none)) for i in range(n)]
+    if len(params[0]["path"]) >= 2 and draw(st.booleans()):
+        # neighbours whose names merely start with the first group's name: a query 'group.*' must not select them
+        g = params[0]["path"][0]
+        params.append({"path": [g + "es", "count"], "type": "int", "shape": [], "val": 7, "unit": None, "tag": False})
+        params.append({"path": [g + "size"], "type": "int", "shape": [], "val": 8, "unit": None, "tag": False})
+    n = len(params)
     scalars = [i for i, p in enumerate(params) if not p["shape"] and p["val"] is not None]
     define = draw(st.lists(st.sampled_from(scalars), max_size=2, unique=True)) if scalars else []
     const = draw(st.lists(st.sampled_from(range(n)), max_size=2, unique=True))
@@ -141,15 +151,15 @@ def selected(case):
     if case["select"] == "query":
         # a query 'box.*' returns the children under names relative to 'box' (pinned by the repository's own test)
         first = ps[0]["path"]
-        if len(first) == 2:
-            return [dict(p, path=p["path"][1:]) for p in ps if len(p["path"]) == 2 and p["path"][0] == first[0]]
+        if len(first) >= 2:
+            return [dict(p, path=p["path"][1:]) for p in ps if len(p["path"]) >= 2 and p["path"][0] == first[0]]
         return [ps[0]]
     return list(ps)
 
 
 def query_of(case):
     first = case["params"][0]["path"]
-    return (first[0] + ".*") if len(first) == 2 else first[0]
+    return (first[0] + ".*") if len(first) >= 2 else first[0]
 
 
 def exported_name(p, rename):
